@@ -11,16 +11,24 @@ ENVMAPS = {(2, 1, 1): [0, 1], (3, 1, 1): [0, 0, 1], (2, 2, 1): [0, 1, 1, 0], (2,
 _S = {}
 
 
-def system(shape, envs=None):
-    key = (shape, tuple(envs) if envs else None)
+def system(shape, envs=None, units=0):
+    """units: 0 = everything in the default system; 1 = state given as a UnitArray in fmol; 2 = network in (mm, min, mmol), space in (dm, s, mol), system default"""
+    key = (shape, tuple(envs) if envs else None, units)
     if key not in _S:
         w, h, d = shape
         n = w * h * d
         env = list(envs) if envs else ENVMAPS[shape]
-        net = RDNetwork(species=[Species("A", D=1.5), Species("B", D={"e0": 0.5, "e1": 2.0})], reactions=[Reaction("A -> B", kf=1.25, kr=0.5)], environments=["e0", "e1"])
+        nu = UnitsSystem("mm", "min", "mmol") if units == 2 else UnitsSystem()
+        su = UnitsSystem("dm", "s", "mol") if units == 2 else UnitsSystem()
+        net = RDNetwork(species=[Species("A", D=1.5, density=2.0, units_system=nu), Species("B", D={"e0": 0.5, "e1": 2.0}, density={"e1": 1.0}, units_system=nu)],
+                        reactions=[Reaction("A -> B", kf=1.25, kr=0.5, units_system=nu)], environments=["e0", "e1"], units_system=nu)
         state = [1.0 + 0.5 * k + 0.25 * (k % 3) for k in range(2 * n)]
         chem = [1 if k % 5 == 1 else 0 for k in range(2 * n)]
-        _S[key] = RDSystem(net, RDGridSpace(w=w, h=h, d=d, cell_env=env, cell_vol=8.0), state=state, chemostats=chem)
+        if units == 1:
+            state = UnitArray(state, "fmol")
+        elif units == 2:
+            state = None        # default state, generated in the network's units
+        _S[key] = RDSystem(net, RDGridSpace(w=w, h=h, d=d, cell_env=env, cell_vol=8.0, units_system=su), state=state, chemostats=chem)
     return _S[key]
 
 
@@ -62,6 +70,29 @@ def accept_iff_valid(shape, im, envs=None):
     ok = valid(shape, im, envs)
     rejected = raises(lambda: coarsegrain_system(sysm, im))
     return rejected != ok
+
+
+def amounts_conserved(shape, im, units):
+    """per-species totals over the retained cells are preserved IN SI whatever units the state / network / space are given in"""
+    from harness.c05lib import si
+    im = [_R[v + 1] for v in im]
+    if not valid(shape, im, None):
+        return True
+    sysm = system(shape, None, units)
+    n = len(im)
+    cg = coarsegrain_system(sysm, im)
+    ng = max(im) + 1
+    for s in range(2):
+        for g in range(ng):
+            tot = sum(si(sysm.state.get_at(s * n + i)) for i in range(n) if im[i] == g)
+            got = si(cg.state.get_at(s * ng + g))
+            if abs(got - tot) > 1e-9 * abs(tot) + 1e-300:
+                return False
+        vol = sum(si(sysm.space.get_cell_vol(i)) for i in range(n) if im[i] != -1)
+        gv = sum(si(cg.space.get_cell_vol(g)) for g in range(ng))
+        if abs(vol - gv) > 1e-9 * vol:
+            return False
+    return True
 
 
 def conserves(shape, im, envs=None):
